@@ -147,6 +147,25 @@ def c_schema(c):
     c.goal('uniform-in-t', ok)
 
 
+@contract('C06', 'EKF.MARG.streaming', concrete_points=[dict(seed=1.0)], known_finding='KF-C06-EKF-marg-stream',
+          functions=['EKF.update', 'EKF.h', 'EKF.dhdq'])
+def c_ekf_marg_points(c):
+    """concrete canonical history (not a proof): EKF with magnetometer, batch vs streaming on a data-less instance"""
+    import ahrs
+    rng = np.random.default_rng(int(c.real('seed')))
+    n = 5
+    g = rng.normal(size=(n, 3)) * 0.1; a = np.tile([0.1, 0.2, 9.7], (n, 1)) + rng.normal(size=(n, 3)) * 0.05
+    m = np.tile([20.0, 1.0, 40.0], (n, 1)) + rng.normal(size=(n, 3)) * 0.2
+    B = ahrs.filters.EKF(gyr=g, acc=a, mag=m)
+    S = ahrs.filters.EKF()
+    q = B.Q[0]
+    ok = True
+    for t in range(1, n):
+        q = S.update(q, g[t], a[t], m[t])
+        ok &= bool(np.allclose(q, B.Q[t], atol=1e-12))
+    c.goal('batch=streaming', ok)
+
+
 NOT_COVERED = ["bit-identical repetition (follows from determinism of the NumPy primitives: assumption)",
                "UKF and EKF.MARG batch=streaming when their unit is listed as out of reach in the evidence",
                "FKF and Complementary have no update method (batch only): nothing to compare"]
